@@ -36,12 +36,13 @@ theorem recombination_vector_src_eq (p : ℕ) [Fact p.Prime] (xs : List Int) (xr
 
 /-- `random_split` of the current source (draws read from `stream`) = the model's `randomSplit` -/
 theorem random_split_src_eq (p : ℕ) [Fact p.Prime] (isField : Bool) (s : List Int) (t m : Int)
-    (stream : List Int) (hs : s ≠ []) (hlen : t.toNat * s.length ≤ stream.length)
+    (stream : List Int) (hs : s ≠ []) (hguard : t = 0 ∨ m < (p : Int))
+    (hlen : t.toNat * s.length ≤ stream.length)
     (hrange : ∀ v ∈ stream.take (t.toNat * s.length), 0 ≤ v ∧ v < (p : Int)) :
     ThreshaSrc.random_split p isField s t m stream
       = .ok (randomSplit (intModP p) s stream t.toNat m.toNat) := by
   rw [show @ThreshaSrc.random_split = @ThreshaMirror.random_split from rfl]
-  exact random_split_eq p isField s t m stream hs hlen hrange
+  exact random_split_eq p isField s t m stream hs hguard hlen hrange
 
 /-- `recombine` (single point) of the current source: `res % p` is the model's `recombine1` (equal if `isField`) -/
 theorem recombine_one_src_eq (p : ℕ) [Fact p.Prime] (isField : Bool) (points : List (Int × List Int)) (x_r : Int)
@@ -168,7 +169,7 @@ theorem split_recombine_src (p : ℕ) [Fact p.Prime] (isField isField' : Bool) (
       ThreshaSrc.recombine_one p isField' (ps.map fun i => (((i + 1 : ℕ) : Int), shares.getD i [])) 0 = .ok res ∧
       res.map (fun x => x % (p : Int)) = s.map (fun x => x % (p : Int)) := by
   have hp0 : 0 < (p : Int) := by exact_mod_cast (Fact.out : p.Prime).pos
-  have hsplit := random_split_src_eq p isField s t (m : Int) stream hs hlen hrange
+  have hsplit := random_split_src_eq p isField s t (m : Int) stream hs (Or.inr (by exact_mod_cast hm)) hlen hrange
   rw [Int.toNat_natCast] at hsplit
   set shares := randomSplit (intModP p) s stream t.toNat m with hshares
   refine ⟨shares, ?_⟩
